@@ -414,19 +414,92 @@ def _refusal(ctx, repo, base_lock):
             ctx.ob("C18-R5", f.fq, f"`{src(st)[:50]}` refuses before any cache state was touched", True not in state, node=st, construct=f"refusal after mutation in {f.name}",
                    msg=f"{f.name} raises after it already changed cache state (unloaded the entry / touched the heap): the refused operation has an effect, and the heap can keep a record of an entry that no longer exists")
         ctx.floor("C18-R5", f"refusing raise statements in {f.name}", len(sem.raises), 1)
-    # the 'not applied' arm of update_file
-    arms = [n for n in walk_local(upd.node) if isinstance(n, ast.If) and n.orelse]
-    found = False
-    for a in arms:
-        t = src(a.test)
-        if "[0]" in t or "info" in t:
-            found = True
-            bad = [s for s in a.orelse if is_mut(s)]
-            ctx.ob("C18-R5", upd.fq, "the 'write already in flight' arm performs no submit and no store", not bad, node=a, construct="not-applied arm is effect free",
-                   msg="an update that reports 'not applied' nevertheless changes the cache")
-            rets = [n for n in walk_local(upd.node) if isinstance(n, ast.Return)]
-            fl = [s for s in a.orelse if isinstance(s, ast.Assign) and isinstance(s.value, ast.Constant) and s.value.value is False]
-            ctx.ob("C18-R5", upd.fq, "that arm reports False", bool(fl), node=a, construct="not-applied arm reports False")
+    # the 'not applied' arm of update_file: decided from the facts that hold at each statement, whatever the spelling of the test
+    entry = None
+    for n in walk_local(upd.node):
+        if isinstance(n, ast.Assign) and isinstance(n.targets[0], ast.Name) and isinstance(n.value, ast.Call) and isinstance(n.value.func, ast.Attribute) and \
+                n.value.func.attr == "get" and dotted(n.value.func.value) == "self.file_futures":
+            entry = n.targets[0].id
+    if entry is None:
+        ctx.ob("C18-R5", upd.fq, "update_file distinguishes 'write in flight' from 'apply'", False, node=upd.node, construct="writing-flag test present")
+        return
+
+    names = {entry}          # the entry variable and plain copies of it
+    for _ in range(3):
+        for n in walk_local(upd.node):
+            if isinstance(n, ast.Assign) and isinstance(n.value, ast.Name) and n.value.id in names and isinstance(n.targets[0], ast.Name):
+                names.add(n.targets[0].id)
+
+    def is_flag(e):
+        if isinstance(e, ast.Call) and callee_name(e) == "bool" and len(e.args) == 1:
+            e = e.args[0]
+        return isinstance(e, ast.Subscript) and isinstance(e.value, ast.Name) and e.value.id in names and isinstance(e.slice, ast.Constant) and e.slice.value == 0
+
+    def is_absent(e):      # `entry is None`
+        return isinstance(e, ast.Compare) and len(e.ops) == 1 and isinstance(e.left, ast.Name) and e.left.id in names and isinstance(e.comparators[0], ast.Constant) and \
+            e.comparators[0].value is None and isinstance(e.ops[0], ast.Is)
+
+    def is_present(e):     # `entry is not None`
+        return isinstance(e, ast.Compare) and len(e.ops) == 1 and isinstance(e.left, ast.Name) and e.left.id in names and isinstance(e.comparators[0], ast.Constant) and \
+            e.comparators[0].value is None and isinstance(e.ops[0], ast.IsNot)
+
+    def writing_pred(e):
+        """'W' if e is true exactly when a write is in flight (entry present and flag set), 'N' if exactly when none is, else None"""
+        if isinstance(e, ast.UnaryOp) and isinstance(e.op, ast.Not):
+            r = writing_pred(e.operand)
+            return {"W": "N", "N": "W"}.get(r)
+        if is_flag(e):
+            return "W"
+        if isinstance(e, ast.BoolOp) and isinstance(e.op, ast.And) and any(is_flag(v) for v in e.values) and all(is_flag(v) or is_present(v) for v in e.values):
+            return "W"
+        if isinstance(e, ast.BoolOp) and isinstance(e.op, ast.Or) and all(is_absent(v) or writing_pred(v) == "N" for v in e.values) and any(writing_pred(v) == "N" for v in e.values):
+            return "N"
+        if isinstance(e, ast.Name):
+            d = [a.value for a in walk_local(upd.node) if isinstance(a, ast.Assign) and any(isinstance(t, ast.Name) and t.id == e.id for t in a.targets)]
+            if len(d) == 1:
+                return writing_pred(d[0])
+        return None
+
+    def flag_state(node):
+        st_ = None
+        for t, pol in path_conditions(node, upd.node):
+            w = writing_pred(t)
+            if w is not None:
+                st_ = w if pol else {"W": "N", "N": "W"}[w]
+            for e, p_ in split_conj(t, pol):
+                w = writing_pred(e)
+                if w is not None:
+                    st_ = w if p_ else {"W": "N", "N": "W"}[w]
+                elif is_absent(e) and p_:
+                    st_ = "N"
+        return st_
+    muts = [s_ for s_ in walk_local(upd.node) if isinstance(s_, ast.stmt) and not isinstance(s_, (ast.If, ast.With, ast.Try, ast.For, ast.While) + FUNC) and is_mut(s_)]
+    states = {id(s_): flag_state(s_) for s_ in muts}
+    found = any(v is not None for v in states.values()) or any(writing_pred(t) is not None for n in walk_local(upd.node) if isinstance(n, ast.If) for t in [n.test])
+    bad = [s_ for s_ in muts if states[id(s_)] != "N"]
+    ctx.ob("C18-R5", upd.fq, "every statement that changes the cache runs only when no write of that file is in flight (the 'not applied' path performs no submit and no store)", not bad,
+           node=bad[0] if bad else upd.node, construct="not-applied arm is effect free", msg="an update that reports 'not applied' nevertheless changes the cache")
+    # the result: False exactly on the write-in-flight path
+    from ..flow import return_alts
+    okr, n_alt = True, 0
+    for facts, v, r in return_alts(upd.node):
+        if v is None:
+            okr = False
+            continue
+        n_alt += 1
+        d = v
+        if isinstance(d, ast.Name):
+            dd = [a for a in walk_local(upd.node) if isinstance(a, ast.Assign) and any(isinstance(t, ast.Name) and t.id == d.id for t in a.targets)]
+            if len(dd) == 1:
+                d = dd[0].value
+        if isinstance(d, ast.Constant) and isinstance(d.value, bool):
+            # which path is this constant assigned / returned on?
+            site = next((a for a in walk_local(upd.node) if isinstance(a, ast.Assign) and a.value is d), r)
+            fs = flag_state(site)
+            okr = okr and ((d.value is True and fs == "N") or (d.value is False and fs == "W"))
+        else:
+            okr = okr and writing_pred(d) == "N"        # `applied = not write_in_flight`
+    ctx.ob("C18-R5", upd.fq, "the result is False exactly on the write-in-flight path and True where the write was submitted", okr and n_alt >= 1, node=upd.node, construct="not-applied arm reports False")
     ctx.ob("C18-R5", upd.fq, "update_file distinguishes 'write in flight' from 'apply'", found, node=upd.node, construct="writing-flag test present")
 
 
